@@ -1026,6 +1026,8 @@ class Polyhedron(Shape3D):
             ["vertices", "faces", "centroid", "volume", "inertia_tensor"]
         )
         hoomd_dict = _map_dict_keys(data, key_mapping=_hoomd_dict_mapping)
+        # The shape is moved back below: return the centered vertices, not the live array.
+        hoomd_dict["vertices"] = hoomd_dict["vertices"].copy()
         hoomd_dict["sweep_radius"] = 0.0
 
         self.centroid = old_centroid
